@@ -189,6 +189,24 @@ def fanout_program(sg):
     y.sum().backward()
     return _dig([x.grad.data, np.asarray(y.data)])
 
+def mixed_operands_program(sg):
+    """calls whose operands differ in dtype (a float32 sample next to integer labels, float32 next to float64): which dtype the
+    result gets, and therefore every bit of it, is a function of the operands - not of the order in which a set or dict of
+    dtypes / tensors happens to iterate in this interpreter"""
+    sg.manual_seed(7)
+    a32 = sg.rand(4, 3); i32 = sg.randint(0, 9, (4, 3))
+    kinds = {"f32": a32, "i32": i32, "f64": sg.Tensor(np.asarray(a32.data, dtype=np.float64) * 1.1),
+             "i64": sg.Tensor(np.arange(12).reshape(4, 3)), "f16": sg.Tensor(np.asarray(a32.data, dtype=np.float16))}
+    out = []
+    for (na, ta), (nb, tb) in itertools.permutations(kinds.items(), 2):
+        for name, fn in (("concat0", lambda: sg.concat([ta, tb], 0)), ("concat1", lambda: sg.concat([ta, tb, ta], 1)), ("stack", lambda: sg.stack([ta, tb], 0)),
+                         ("add", lambda: ta + tb), ("mul", lambda: ta * tb), ("matmul", lambda: ta @ tb.transpose(0, 1))):
+            try:
+                r = fn(); out.append(_dig([np.asarray(r.data)]))
+            except Exception as e:
+                out.append(f"{name}:{na}:{nb}:raised:{type(e).__name__}")
+    return out
+
 def table(L):
     sg = harness.load()
     import synapgrad.nn.utils.data
@@ -200,6 +218,7 @@ def table(L):
         t["fixed"] = fixed_program(sg, 5)
         t["fixed_persistent_layers"] = persistent_program(sg, 5)
         t["fixed_train_from_arrays"] = train_from_arrays_program(sg, 3)
+        t["fixed_mixed_dtype_operands"] = mixed_operands_program(sg)
         from synapgrad.nn.utils import data as D
         labs = ["cat", "dog", "bird", "cat", "emu", "dog", "ant", "bird"]
         t["fixed_onehot_strings"] = [_dig([np.asarray(D.one_hot_encode(np.array(labs)))]), _dig([np.asarray(D.one_hot_encode(labs))])]
